@@ -86,6 +86,9 @@ Target(r) ==
     [] r.ev = "Remove" ->
          IF Prop = "C16"
          THEN IF d \in open THEN r.res # "ok" /\ Same(pre, post, All)
+              \* removing a document the store has no capability for (never imported / already removed): either it is
+              \* refused and nothing changes, or it succeeds and nothing of it is left
+              ELSE IF pre.cap = "none" THEN (r.res = "ok" /\ Gone(post)) \/ (r.res # "ok" /\ Same(pre, post, All))
               ELSE r.res = "ok" /\ Gone(post)
          ELSE \* whether the removal had to be refused is C16's question; the other properties follow the logged outcome
               IF r.res = "ok"
